@@ -368,6 +368,12 @@ package mqtt
 //@ ensures C30-every-valid-filter-accepted: !forPublish && len(filter) > 0 && hashOK(filter) && plusOK(filter) && shareOK(filter) ==> r0
 //@ ensures C30-publish-topic-without-wildcards-and-sys: forPublish && r0 ==> noWild(filter) && !sysPrefix(filter)
 //@ ensures C30-every-valid-publish-topic-accepted: forPublish && noWild(filter) && !sysPrefix(filter) ==> r0
+// the level scan: every wildcard before i follows a '/' (or starts the filter) and every '+' before i is followed by a '/' (or ends it)
+// verif:loop mqtt.IsValidFilter 1
+//@ invariant 0 <= i && i <= len(filter)
+//@ invariant forall k int, j int :: 0 <= j && j + 1 == k && k < i && (filter[k] == 43 || filter[k] == 35) ==> filter[j] == 47
+//@ invariant forall k int, j int :: 0 <= k && k + 1 == j && j < len(filter) && k < i && filter[k] == 43 ==> filter[j] == 47
+//@ decreases len(filter) - i
 
 // verif:func mqtt.Hooks.OnACLCheck trusted
 //@ ensures r0 == aclOK(cl, topic, write)
